@@ -128,6 +128,9 @@ func (p *Parser) Next() (GrammarType, []byte) {
 	if p.needComma && c != '}' && c != ']' && c != 0 {
 		p.err = parse.NewErrorLexer(p.r, "expected comma character or an array or object ending")
 		return ErrorGrammar, nil
+	} else if state == ObjectKeyState && (c == '{' || c == '[') {
+		p.err = parse.NewErrorLexer(p.r, "expected object key to be a quoted string")
+		return ErrorGrammar, nil
 	} else if c == '{' {
 		p.state = append(p.state, ObjectKeyState)
 		p.r.Move(1)
